@@ -79,6 +79,9 @@ def verify_contract(world, c, cache=None, max_paths=4000, limits=None):
             ctx.ghost[g] = build(sh, it, 'g_' + g)
         if c.setup is not None:
             c.setup(it, env)
+            for name in list(c.params) + ['__names__']:
+                if env.has(name):
+                    inputs[name] = env.lookup(name)
         for name, ex in c.defs.items():
             f = spec_eval(it, ex, env)
             f.nested = True
